@@ -70,6 +70,8 @@ theorem chkTransitions_ok : chkTransitions = true := by decide +kernel
 /-! ### equality of codes on resolved bases means same base -/
 theorem chkSame_ok : chkSame = true := by decide +kernel
 
+theorem chkGapCode_ok : chkGapCode = true := by decide +kernel
+
 theorem chkResolvedDiffer_ok : chkResolvedDiffer = true := by decide +kernel
 
 end Gofasta.Lemmas
@@ -94,5 +96,8 @@ theorem enc_transitions (a b : Nat) (ha : a < 256) (hb : b < 256) (hea : enc fal
 
 theorem isACGT_of_upper_eq {a b : Nat} (h : upper a = upper b) : isACGT a = isACGT b := by
   simp [isACGT, h]
+
+theorem enc_gap_iff (b : Nat) (hb : b < 256) (he : enc false b ≠ 0) : (enc false b == 244) = (b == 45) := by
+  simpa using (List.all_eq_true.1 chkGapCode_ok) b (mem_accepted hb he)
 
 end Gofasta.Lemmas
